@@ -2,6 +2,7 @@ package props
 
 import (
 	"bytes"
+	"encoding/json"
 	"fmt"
 
 	"verif/internal/gen"
@@ -24,6 +25,8 @@ type Ev struct {
 	// block, so an inflater legitimately reaches end-of-stream before the last
 	// (contentless) payload bytes have arrived.
 	BFinal bool
+	// JSON: the payload is one JSON value (readable with ReadJSON)
+	JSON bool
 }
 
 // Stream is a peer stream built by the independent encoder.
@@ -47,6 +50,7 @@ type StreamOpts struct {
 	CloseCode  int  // 0 = draw one
 	NoEmpty    bool // no zero-length fragments
 	UseZlib    bool
+	JSON       bool // make some text messages JSON documents
 	CtlDen     int // a control frame is inserted with probability 1/CtlDen at each slot (default 4)
 	Reason     int // -1 = draw; otherwise the close reason length
 	HasReason  bool
@@ -163,6 +167,12 @@ func genStream(r *gen.R, o StreamOpts) *Stream {
 		typ := 1 + r.Intn(2)
 		n := r.BoundarySize(r.Pick(gen.BufSizes), o.MaxSize)
 		data := r.Payload(r.Intn(gen.NPayloadClasses), n)
+		isJSON := false
+		if o.JSON && r.Chance(1, 4) {
+			typ = 1
+			data, _ = json.Marshal(genJSONVal(r))
+			isJSON = true
+		}
 		raw := data
 		comp, bfinal := false, false
 		if o.Comp && r.Bool() {
@@ -190,7 +200,7 @@ func genStream(r *gen.R, o StreamOpts) *Stream {
 		if len(sizes) == 0 {
 			sizes = []int{len(raw)}
 		}
-		ev := Ev{Kind: typ, Data: data, Comp: comp, BFinal: bfinal}
+		ev := Ev{Kind: typ, Data: data, Comp: comp, BFinal: bfinal, JSON: isJSON}
 		off := 0
 		for i, k := range sizes {
 			f := wire.Frame{Op: wire.OpCont, Masked: o.FromClient, Payload: raw[off : off+k]}
